@@ -50,6 +50,39 @@ Lemma vc_eq E dt l t a : validate_coercion E dt l t a =
   end.
 Proof. destruct l; destruct t; reflexivity. Qed.
 
+Lemma hh_eq E l t : hook_hit E l t =
+  match l with
+  | LVar _ => false
+  | LNull => false
+  | _ =>
+      match t with
+      | StNonNull t' => hook_hit E l t'
+      | StList t' => match l with LList vs => existsb (fun v => hook_hit E v t') vs | _ => hook_hit E l t' end
+      | StNamed n =>
+          match aget n E with
+          | Some (TInput fields h) =>
+              match l with
+              | LObject fs =>
+                  is_hfail h
+                  || existsb (fun p : name * lit =>
+                                match aget (fst p) fields with
+                                | Some fd => hook_hit E (snd p) (in_type fd)
+                                | None => false
+                                end) fs
+              | _ => false
+              end
+          | _ => false
+          end
+      end
+  end.
+Proof. destruct l; destruct t; reflexivity. Qed.
+
+Lemma existsb_false {A} (f : A -> bool) l x : existsb f l = false -> In x l -> f x = false.
+Proof.
+  intros H Hx. destruct (f x) eqn:F; auto.
+  assert (existsb f l = true) by (apply existsb_exists; eauto). congruence.
+Qed.
+
 Lemma res_map_no_err {A} (f : A -> res gval) l : Forall (fun x => f x <> Err) l -> res_map f l <> Err.
 Proof.
   induction 1 as [|x r Hx _ IH]; simpl; [discriminate|].
@@ -101,7 +134,6 @@ Section Complete.
   Hypothesis Hfix : fix_null_var fx = true.
   Hypothesis Hio : fix_item_object fx = true.
   Hypothesis Hnn : fix_nn_flag fx = true.
-  Hypothesis Hhook : refusing_hook E = false.
   Variable defs : list vardef.
   Variable vv : cvars.
   Hypothesis Hvv : vv_ok E defs vv.
@@ -111,14 +143,8 @@ Section Complete.
     forall v def, In v (lit_vars l) -> find_def v defs = Some def ->
                   is_nonnull (vd_type def) = true \/ vd_default def <> None -> ahas v vv = true.
 
-  Lemma hook_no_err n fields h m : aget n E = Some (TInput fields h) -> apply_hook h m <> Err.
-  Proof.
-    intros Hn. apply aget_In in Hn. unfold refusing_hook in Hhook.
-    destruct h; simpl; try discriminate. exfalso.
-    assert (X : existsb (fun p : name * tdef => match snd p with TInput _ h => is_hfail h | _ => false end) E = true).
-    { apply existsb_exists. exists (n, TInput fields HFail). split; auto. }
-    congruence.
-  Qed.
+  Lemma hook_no_err h m : is_hfail h = false -> apply_hook h m <> Err.
+  Proof. destruct h; simpl; discriminate. Qed.
 
   (** a variable without a value is never accepted at a non-null location without default *)
   Lemma absent_var_usage vn loc : vars_valued (LVar vn) ->
@@ -139,6 +165,7 @@ Section Complete.
       (forall v, In v (lit_vars l) -> aget v vv <> Some GNil) ->
       (forall v, In v (item_vars l) -> ahas v vv = true) ->
       vars_valued l ->
+      hook_hit E l t = false ->
       validate_coercion E dt l t a = true ->
       usage_ok fx E defs l (Some t) ld = true ->
       coerce_literal fx E dt vv l t a <> Err.
@@ -192,13 +219,13 @@ Section Complete.
   Qed.
 
   Ltac atom l :=
-    intros t a ld _ _ _ _ V _; apply (atom_complete l); [intros; discriminate|discriminate|intros; discriminate|intros; discriminate|exact V].
+    intros t a ld _ _ _ _ _ V _; apply (atom_complete l); [intros; discriminate|discriminate|intros; discriminate|intros; discriminate|exact V].
 
   Theorem literal_complete : forall l, lit_complete l.
   Proof.
     induction l as [n|z|m k|s|b| |n|vs IHl|fs IHf] using lit_ind'.
     - (* a variable that has a value: returned as it is, and it is not null *)
-      intros t a ld P H1 _ _ _ _. simpl in P. unfold ahas in P.
+      intros t a ld P H1 _ _ _ _ _. simpl in P. unfold ahas in P.
       destruct (aget n vv) as [value|] eqn:G; [|discriminate].
       rewrite cl_eq, G.
       assert (N : is_nil value = false).
@@ -208,10 +235,10 @@ Section Complete.
     - atom (LFloat m k).
     - atom (LString s).
     - atom (LBool b).
-    - intros t a ld _ _ _ _ V _. rewrite cl_eq. rewrite vc_eq in V. destruct (is_nonnull t); discriminate.
+    - intros t a ld _ _ _ _ _ V _. rewrite cl_eq. rewrite vc_eq in V. destruct (is_nonnull t); discriminate.
     - atom (LEnum n).
     - (* a list literal *)
-      intros t; induction t as [n|t' IHt|t' IHt]; intros a ld P H1 H2 Hd V U; rewrite cl_eq; rewrite vc_eq in V.
+      intros t; induction t as [n|t' IHt|t' IHt]; intros a ld P H1 H2 Hd Hh V U; rewrite cl_eq; rewrite vc_eq in V; rewrite hh_eq in Hh.
       + destruct (aget n E) as [[k|vals|fields h]|]; try discriminate. destruct k; discriminate.
       + apply res_list_no_err. apply res_map_no_err.
         rewrite Forall_forall in *. intros x Hx.
@@ -222,9 +249,10 @@ Section Complete.
         * intros v Hv. apply H1. cbn [lit_vars]. apply in_flat_map. exists x; auto.
         * intros v Hv. apply H2. eapply item_vars_sub_list; eauto.
         * intros v def Hv. apply Hd. cbn [lit_vars]. apply in_flat_map. exists x; auto.
+        * apply (existsb_false _ _ x Hh Hx).
       + rewrite Hnn. apply (IHt a ld); auto.
     - (* an object literal *)
-      intros t; induction t as [n|t' IHt|t' IHt]; intros a ld P H1 H2 Hd V U; rewrite cl_eq; rewrite vc_eq in V.
+      intros t; induction t as [n|t' IHt|t' IHt]; intros a ld P H1 H2 Hd Hh V U; rewrite cl_eq; rewrite vc_eq in V; rewrite hh_eq in Hh.
       + destruct (aget n E) as [[k|vals|fields h]|] eqn:Hn; try discriminate.
         { destruct k; discriminate. }
         apply andb_true_iff in V as [V V3]. apply andb_true_iff in V as [V1 V2].
@@ -263,7 +291,7 @@ Section Complete.
               rewrite (absent_var_usage _ _ Hd' Uv) in Ab. discriminate.
             - destruct (Pr _ eq_refl) as [c Hc]. rewrite Hc in Gr. rewrite Gr. reflexivity. }
           destruct (fold_left lit_default_step fields (Ok r1)) as [r2| |]; [|contradiction|discriminate].
-          apply (hook_no_err n fields h r2 Hn).
+          apply hook_no_err. apply orb_false_iff in Hh as [Hh _]. exact Hh.
         * (* the first loop cannot fail *)
           exfalso. revert L1. apply loop1_total.
           -- intros k fv Hin. specialize (V2 _ Hin). simpl in V2. unfold ahas. destruct (aget k fields); [reflexivity|discriminate].
@@ -273,12 +301,14 @@ Section Complete.
              ++ intros v Hv. apply H1. eapply Sub1; eauto.
              ++ intros v Hv. apply H2. eapply Sub2; eauto.
              ++ intros v def Hv. apply Hd. eapply Sub1; eauto.
+             ++ apply orb_false_iff in Hh as [_ Hh]. pose proof (existsb_false _ _ (k, fv) Hh Hin) as X.
+                simpl in X. rewrite Hg in X. exact X.
              ++ specialize (V2 _ Hin). simpl in V2. rewrite Hg in V2. exact V2.
              ++ eapply Uf; eauto.
       + destruct a; [|discriminate].
         assert (U' : usage_ok fx E defs (LObject fs) (Some t') ld = true).
         { cbn [usage_ok] in *. rewrite Hio in *. exact U. }
-        specialize (IHt true ld P H1 H2 Hd V U').
+        specialize (IHt true ld P H1 H2 Hd Hh V U').
         destruct (coerce_literal fx E dt vv (LObject fs) t' true); [discriminate|contradiction|discriminate].
       + rewrite Hnn.
         assert (U' : usage_ok fx E defs (LObject fs) (Some t') ld = true).
@@ -347,14 +377,14 @@ Section TopComplete.
 
   (** *** static_dynamic_agree, arguments: after validation and a successful coercion of the
       variable values, CoerceArgumentValues fails only for one of the three run-time reasons *)
-  Theorem argument_values_complete site argdefs defs args raw vv :
+  Theorem argument_values_complete_precise site argdefs defs args raw vv :
     has_dup (map fst argdefs) = false ->
     (forall def dflt, In def defs -> vd_default def = Some dflt -> lit_vars dflt = []) ->
     (forall p, In p raw -> jval_ok (snd p) = true) ->
     static_ok fx E dt site argdefs defs args = true ->
     coerce_variable_values fx E dt defs raw = Ok vv ->
     coerce_argument_values fx E dt argdefs args vv = Err ->
-    null_variable vv args || absent_item_variable vv args || refusing_hook E = true.
+    null_variable vv args || absent_item_variable vv args || hook_reached_args E argdefs args = true.
   Proof.
     intros Hda Hc Hr St Hv.
     destruct (static_parts _ _ _ _ _ _ _ St) as (Da & Rq & VU & _ & Dd).
@@ -362,7 +392,7 @@ Section TopComplete.
     pose proof (defs_in_vv defs raw vv Hv) as Hdv.
     destruct (null_variable vv args) eqn:B1; [reflexivity|].
     destruct (absent_item_variable vv args) eqn:B2; [reflexivity|].
-    destruct (refusing_hook E) eqn:B3; [reflexivity|]. intro H. exfalso. revert H.
+    destruct (hook_reached_args E argdefs args) eqn:B3; [reflexivity|]. intro H. exfalso. revert H.
     (* the three hazards are absent *)
     assert (H1 : forall a v, In a args -> In v (lit_vars (snd a)) -> aget v vv <> Some GNil).
     { intros a v Ha Hin G. unfold null_variable in B1.
@@ -389,13 +419,14 @@ Section TopComplete.
                     match coerce_literal all_fixed E dt vv l (in_type d) true with
                     | Ok c => True | Err => False | Panic => True end).
       { intros NV.
-        pose proof (literal_complete all_fixed E dt HE eq_refl eq_refl eq_refl B3 defs vv Hvv l (in_type d) true
+        pose proof (literal_complete all_fixed E dt HE eq_refl eq_refl eq_refl defs vv Hvv l (in_type d) true
                       (arg_loc_default site d)) as C.
         destruct (coerce_literal all_fixed E dt vv l (in_type d) true); auto. apply C; auto.
         - destruct l; simpl; auto. exfalso. eapply NV; reflexivity.
         - intros v Hv'. apply (H1 (aname, l)); auto.
         - intros v Hv'. apply (H2 (aname, l)); auto.
-        - intros v def _. apply Hdv. }
+        - intros v def _. apply Hdv.
+        - pose proof (existsb_false _ _ (aname, l) B3 G) as X. simpl in X. rewrite Hg in X. exact X. }
       destruct l as [vn| | | | | | | |];
         try (cbn [negb]; rewrite andb_false_r; cbn iota;
              (match goal with |- context [coerce_literal ?a ?b ?c ?v ?l ?t true] =>
@@ -420,11 +451,11 @@ Section TopComplete.
   (** *** the same for the default branch of CoerceVariableValues: after validation it fails only
       because of a raw value that does not coerce, a required variable without value, or a
       refusing hook — never because of a default value *)
-  Theorem variable_values_complete site argdefs defs args raw :
+  Theorem variable_values_complete_precise site argdefs defs args raw :
     (forall def dflt, In def defs -> vd_default def = Some dflt -> lit_vars dflt = []) ->
     static_ok fx E dt site argdefs defs args = true ->
     coerce_variable_values fx E dt defs raw = Err ->
-    bad_variable_value fx E dt defs raw || refusing_hook E = true.
+    bad_variable_value fx E dt defs raw || hook_reached_defaults E defs raw = true.
   Proof.
     intros Hc St.
     destruct (static_parts _ _ _ _ _ _ _ St) as (_ & _ & _ & Vd & _).
@@ -433,7 +464,7 @@ Section TopComplete.
       match goal with X : forallb (fun def : vardef => type_known E (vd_type def)) defs = true |- _ =>
         rewrite forallb_forall in X; exact X end. }
     destruct (bad_variable_value fx E dt defs raw) eqn:B1; [reflexivity|].
-    destruct (refusing_hook E) eqn:B3; [reflexivity|]. intro H. exfalso. revert H.
+    destruct (hook_reached_defaults E defs raw) eqn:B3; [reflexivity|]. intro H. exfalso. revert H.
     unfold coerce_variable_values.
     apply (fold_no_err _ (fun _ => eq_refl) (fun _ => True)); [exact I|].
     intros coerced def Hin _. cbn [var_step]. rewrite (Tk _ Hin). cbn [negb].
@@ -448,17 +479,18 @@ Section TopComplete.
              | None => match vd_default def with None => is_nonnull (vd_type def) | Some _ => false end
              end) defs = true) by (apply existsb_exists; exists def; split; auto).
       congruence. }
-    destruct (aget (vd_name def) raw) as [value|].
+    destruct (aget (vd_name def) raw) as [value|] eqn:Rw.
     - destruct (coerce_var_value fx E dt value (vd_type def) true); [exact I|discriminate|exact I].
     - destruct (vd_default def) as [dflt|] eqn:D.
       + assert (V0 : vv_ok E defs []) by (intros n g G; discriminate).
         pose proof (Hc _ _ Hin D) as Cl.
         assert (C : coerce_literal fx E dt [] dflt (vd_type def) true <> Err).
-        { apply (literal_complete fx E dt HE eq_refl eq_refl eq_refl B3 defs [] V0) with (ld := false).
+        { apply (literal_complete fx E dt HE eq_refl eq_refl eq_refl defs [] V0) with (ld := false).
           - destruct dflt; simpl; auto. discriminate.
           - intros v Hv'. rewrite Cl in Hv'. contradiction.
           - intros v Hv'. apply item_vars_in_lit_vars in Hv'. rewrite Cl in Hv'. contradiction.
           - intros v d0 Hv'. rewrite Cl in Hv'. contradiction.
+          - pose proof (existsb_false _ _ def B3 Hin) as X. simpl in X. rewrite Rw, D in X. exact X.
           - eapply Vd; eauto.
           - apply closed_usage_ok. exact Cl. }
         destruct (coerce_literal fx E dt [] dflt (vd_type def) true); [exact I|contradiction|exact I].
@@ -466,21 +498,96 @@ Section TopComplete.
   Qed.
 End TopComplete.
 
+(** ** the coarse reason follows from the precise one *)
+Lemma hook_hit_coarse E : forall l t, hook_hit E l t = true -> refusing_hook E = true.
+Proof.
+  induction l as [n|z|m k|s|b| |n|vs IHl|fs IHf] using lit_ind';
+    intros t; induction t as [tn|t' IHt|t' IHt]; intros H; rewrite hh_eq in H; try discriminate; eauto;
+    try (destruct (aget tn E) as [[?|?|? ?]|]; discriminate).
+  - apply existsb_exists in H as (x & Hx & Hh). rewrite Forall_forall in IHl. eapply IHl; eauto.
+  - destruct (aget tn E) as [[?|?|fields h]|] eqn:Hn; try discriminate.
+    apply orb_true_iff in H as [H|H].
+    + unfold refusing_hook. apply existsb_exists. exists (tn, TInput fields h). split; [apply aget_In; exact Hn|exact H].
+    + apply existsb_exists in H as ([k x] & Hx & Hh). simpl in Hh.
+      destruct (aget k fields); try discriminate. rewrite Forall_forall in IHf. eapply (IHf (k, x)); eauto.
+Qed.
+
+Lemma hook_reached_args_coarse E argdefs args : hook_reached_args E argdefs args = true -> refusing_hook E = true.
+Proof.
+  intro H. apply existsb_exists in H as (a & _ & H). destruct (aget (fst a) argdefs); try discriminate.
+  eapply hook_hit_coarse; eauto.
+Qed.
+
+Lemma hook_reached_defaults_coarse E defs raw : hook_reached_defaults E defs raw = true -> refusing_hook E = true.
+Proof.
+  intro H. apply existsb_exists in H as (d & _ & H).
+  destruct (aget (vd_name d) raw); try discriminate. destruct (vd_default d); try discriminate.
+  eapply hook_hit_coarse; eauto.
+Qed.
+
+Theorem argument_values_complete E dt (HE : env_ok E = true) site argdefs defs args raw vv :
+  has_dup (map fst argdefs) = false ->
+  (forall def dflt, In def defs -> vd_default def = Some dflt -> lit_vars dflt = []) ->
+  (forall p, In p raw -> jval_ok (snd p) = true) ->
+  static_ok all_fixed E dt site argdefs defs args = true ->
+  coerce_variable_values all_fixed E dt defs raw = Ok vv ->
+  coerce_argument_values all_fixed E dt argdefs args vv = Err ->
+  null_variable vv args || absent_item_variable vv args || refusing_hook E = true.
+Proof.
+  intros Hd Hc Hr St V A.
+  pose proof (argument_values_complete_precise E dt HE site argdefs defs args raw vv Hd Hc Hr St V A) as C.
+  apply orb_true_iff in C as [C|C]; [rewrite C; reflexivity|].
+  rewrite (hook_reached_args_coarse _ _ _ C). apply orb_true_r.
+Qed.
+
+Theorem variable_values_complete E dt (HE : env_ok E = true) site argdefs defs args raw :
+  (forall def dflt, In def defs -> vd_default def = Some dflt -> lit_vars dflt = []) ->
+  static_ok all_fixed E dt site argdefs defs args = true ->
+  coerce_variable_values all_fixed E dt defs raw = Err ->
+  bad_variable_value all_fixed E dt defs raw || refusing_hook E = true.
+Proof.
+  intros Hc St V.
+  pose proof (variable_values_complete_precise E dt HE site argdefs defs args raw Hc St V) as C.
+  apply orb_true_iff in C as [C|C]; [rewrite C; reflexivity|].
+  rewrite (hook_reached_defaults_coarse _ _ _ C). apply orb_true_r.
+Qed.
+
 (** ** static_dynamic_agree for the whole request *)
+Theorem static_dynamic_agree_precise E dt site argdefs defs args raw :
+  schema_ok E argdefs -> request_ok defs raw ->
+  run_request all_fixed E dt site argdefs defs args raw = ORuntimeError ->
+  runtime_reason_precise E dt argdefs defs args raw = true.
+Proof.
+  intros (HE & Hd & _) (Hc & Hr) H. unfold run_request in H.
+  destruct (static_ok all_fixed E dt site argdefs defs args) eqn:St; [|discriminate]. cbn [negb] in H.
+  unfold runtime_reason_precise.
+  destruct (coerce_variable_values all_fixed E dt defs raw) as [vv| |] eqn:V; [| |discriminate].
+  - destruct (coerce_argument_values all_fixed E dt argdefs args vv) eqn:A; try discriminate.
+    rewrite (argument_values_complete_precise E dt HE site argdefs defs args raw vv Hd Hc Hr St V A).
+    apply orb_true_r.
+  - pose proof (variable_values_complete_precise E dt HE site argdefs defs args raw Hc St V) as C.
+    rewrite C. reflexivity.
+Qed.
+
+Lemma runtime_reason_coarse E dt argdefs defs args raw :
+  runtime_reason_precise E dt argdefs defs args raw = true -> runtime_reason E dt defs args raw = true.
+Proof.
+  unfold runtime_reason_precise, runtime_reason. intro H.
+  apply orb_true_iff in H as [H|H]; [apply orb_true_iff in H as [H|H]|].
+  - rewrite H. reflexivity.
+  - rewrite (hook_reached_defaults_coarse _ _ _ H). apply orb_true_r.
+  - destruct (coerce_variable_values all_fixed E dt defs raw); try discriminate.
+    apply orb_true_iff in H as [H|H].
+    + rewrite H. rewrite orb_true_r. reflexivity.
+    + rewrite (hook_reached_args_coarse _ _ _ H). apply orb_true_r.
+Qed.
+
 Theorem static_dynamic_agree E dt site argdefs defs args raw :
   schema_ok E argdefs -> request_ok defs raw ->
   run_request all_fixed E dt site argdefs defs args raw = ORuntimeError ->
   runtime_reason E dt defs args raw = true.
 Proof.
-  intros (HE & Hd & _) (Hc & Hr) H. unfold run_request in H.
-  destruct (static_ok all_fixed E dt site argdefs defs args) eqn:St; [|discriminate]. cbn [negb] in H.
-  unfold runtime_reason.
-  destruct (coerce_variable_values all_fixed E dt defs raw) as [vv| |] eqn:V; [| |discriminate].
-  - destruct (coerce_argument_values all_fixed E dt argdefs args vv) eqn:A; try discriminate.
-    pose proof (argument_values_complete E dt HE site argdefs defs args raw vv Hd Hc Hr St V A) as C.
-    apply orb_true_iff in C as [C|C]; [rewrite C|rewrite C]; repeat rewrite orb_true_r; reflexivity.
-  - pose proof (variable_values_complete E dt HE site argdefs defs args raw Hc St V) as C.
-    apply orb_true_iff in C as [C|C]; rewrite C; repeat rewrite orb_true_r; reflexivity.
+  intros S R H. eapply runtime_reason_coarse. eapply static_dynamic_agree_precise; eauto.
 Qed.
 
 (** on a closed schema: a validated request without any of the run-time reasons IS served, with
@@ -489,7 +596,7 @@ Corollary served_unless_runtime_reason E dt site argdefs defs args raw :
   schema_ok E argdefs -> request_ok defs raw -> env_closed E = true ->
   (forall ad, In ad argdefs -> sty_closed E (in_type (snd ad)) = true) ->
   static_ok all_fixed E dt site argdefs defs args = true ->
-  runtime_reason E dt defs args raw = false ->
+  runtime_reason_precise E dt argdefs defs args raw = false ->
   exists m, run_request all_fixed E dt site argdefs defs args raw = OCalled m /\
             ref_request E dt argdefs defs args raw = Some m.
 Proof.
@@ -497,7 +604,7 @@ Proof.
   pose proof (request_exact E dt HE HC site argdefs defs args raw Hc Hr St) as X.
   destruct (ref_request E dt argdefs defs args raw) as [m|].
   - exists m. auto.
-  - rewrite (static_dynamic_agree E dt site argdefs defs args raw S R X) in N. discriminate.
+  - rewrite (static_dynamic_agree_precise E dt site argdefs defs args raw S R X) in N. discriminate.
 Qed.
 
 (** ** a converse: the second reason is always fatal.  A variable without a run-time value that
